@@ -1,5 +1,5 @@
 (* C04 — Serialized sample and counter tables are chronological and lossless. *)
-From SV Require Import Model.SampleTable Spec.SampleTableSpec Proofs.SampleTableProofs Tie.C04.
+From SV Require Import Model.SampleTable Spec.SampleTableSpec Proofs.SampleTableProofs Tie.C04 Generated.SampleTableGen Proofs.SampleTableGenProofs.
 From Coq Require Import Permutation.
 Open Scope N_scope.
 
@@ -30,7 +30,31 @@ Theorem C04_checker_sound :
     exists eff, effective ops = Some eff /\ Permutation (rows_to_entries 0 rows) eff.
 Proof. exact checker_sound. Qed.
 
+(* The tie by translation for how the table is filled.  tools/xlate_st.py re-reads fxprof-processed-profile/src/sample_table.rs on every run and emits
+   SampleTable::new, add_sample and modify_last_sample, statement by statement, over the struct's own fields: four parallel columns, the
+   sortedness flag, the last timestamp (Generated/SampleTableGen.v; None = unwrap() on an empty column or an index out of bounds).  Read row by row
+   (abs), the columns after ANY history of calls are the model's entry list after the same history, a call panics exactly when the model's does, and
+   the flag and the last timestamp agree - so C04_serialized_table, stated over the model's table, is about the table the translated code builds. *)
+Theorem C04_translation_history :
+  forall calls : list tcall,
+    option_map abs (fold_left g_tstep calls (Some g_new)) = fold_left m_tstep calls (Some table_init).
+Proof. exact g_history_abs. Qed.
+
+Theorem C04_translation_add :
+  forall (g : gtable) (t s c : N) (w : Z), wf g ->
+    abs (g_add_sample g t s c w) = t_add (abs g) (mkEntry t s c w) /\ wf (g_add_sample g t s c w).
+Proof. exact g_add_sample_abs. Qed.
+
+Theorem C04_translation_modify :
+  forall (g : gtable) (t : N) (w : Z), wf g ->
+    option_map abs (g_modify_last_sample g t w) = t_modify_last (abs g) t w /\
+    (forall g', g_modify_last_sample g t w = Some g' -> wf g').
+Proof. exact g_modify_last_sample_abs. Qed.
+
 Print Assumptions C04_serialized_table.
+Print Assumptions C04_translation_history.
+Print Assumptions C04_translation_add.
+Print Assumptions C04_translation_modify.
 Print Assumptions C04_checker_accepts_model.
 Print Assumptions C04_checker_sound.
 
@@ -42,4 +66,11 @@ Proof. vm_compute. reflexivity. Qed.
 Example ex_f_c04_mirror :
   serialize (tbl (th_run [OAdd 10 1 0 1; OAdd 20 2 0 1; OMerge 5 1]))
   = ([(5, 2, 2%Z, 0); (5, 1, 1%Z, 0)], false).
+Proof. vm_compute. reflexivity. Qed.
+
+
+(* Non-vacuity for the translation: the history that broke the original code (a merge that moves the last sample's time, then an earlier sample)
+   leaves the translated table unsorted-flagged, as the repaired code must. *)
+Example ex_translation_f_c04 :
+  option_map g_sorted (fold_left g_tstep [TAdd 10 1 0 1; TModify 20 1; TAdd 15 2 5 1] (Some g_new)) = Some false.
 Proof. vm_compute. reflexivity. Qed.
